@@ -2154,7 +2154,7 @@ class DimensionConvention(Convention[GridKind, Index]):
             grid_kind = self.default_grid_kind
 
         dimensions = self.grid_dimensions[grid_kind]
-        sizes = [self.dataset.sizes[dim] for dim in dimensions]
+        sizes = list(self.grid_shape[grid_kind])
 
         return utils.wind_dimension(
             data_array,
